@@ -178,8 +178,13 @@ class DefaultDeploymentManager(DeploymentManager):
         )
 
     async def undeploy(self, deployment_name: str) -> None:
-        if deployment_name in dict(self.deployments_map):
+        # Wait for the current deployment to complete (it can change while waiting)
+        while (
+            deployment_name in self.deployments_map
+            and not self.events_map[deployment_name].is_set()
+        ):
             await self.events_map[deployment_name].wait()
+        if deployment_name in self.deployments_map:
             # Remove the deployment from the dependency graph
             self.dependency_graph[deployment_name].discard(deployment_name)
             # If there are no more inner deployments, undeploy the environment and clear the related data structures
